@@ -210,10 +210,16 @@ func (w *world) runCase(cs *caseSpec) (res result) {
 		e.act <- a
 	}
 	groupSize := 0
+	var lastLat time.Time
 	started := false // the first task list has been built and the goroutines run
 	handle := func(e event) {
 		switch e.kind {
 		case evLat:
+			if !started && len(latRun) > 0 && time.Since(lastLat) > time.Second {
+				// the calls of one initJob are microseconds apart; the goroutines have been running for a while
+				started = true
+			}
+			lastLat = time.Now()
 			if started && phase == 1 {
 				// a second initJob: phase two has begun
 				groupSize = len(latRun)
